@@ -1,5 +1,6 @@
 pub mod alloc;
 pub mod cli;
+pub mod fuzz_entry;
 pub mod genreg;
 pub mod model;
 pub mod p_decode;
